@@ -545,6 +545,404 @@ def gen_cases(tier):
     return cases, ncorpus
 
 
+
+# ---------------------------------------------------------------- Layer 2: DDL histories
+SCALARS = ['str', 'int64', 'bool', 'float64']
+
+
+class DDLGen:
+    """valid-biased generator of DDL histories over a small pool of names, with a shadow of the
+    user schema precise enough that most commands meant to succeed do"""
+
+    def __init__(self, rnd):
+        self.r = rnd
+        self.wild = rnd.choice([0.05, 0.1, 0.1, 0.25])
+        self.types = {}        # name -> dict(props={p: scalar}, links={l: target}, bases=[...], idx=set(), ann=set(), comp=set())
+        self.scalars = {}      # name -> base
+        self.annos = set()
+        self.funcs = {}        # name -> param type name (object type or scalar)
+        self.aliases = {}      # name -> type
+        self.globals_ = {}     # name -> kind
+        self.modules = {'default'}
+
+    # -- pools
+    def tname(self, existing=None):
+        r = self.r
+        if existing is True and self.types and r.random() > self.wild:
+            return r.choice(sorted(self.types))
+        if existing is False:
+            free = [f'T{i}' for i in range(6) if f'T{i}' not in self.types]
+            if free and r.random() > self.wild:
+                return r.choice(free)
+        return f'T{r.randrange(6)}'
+
+    def scalar(self):
+        r = self.r
+        if self.scalars and r.random() < 0.3:
+            return r.choice(sorted(self.scalars))
+        return r.choice(SCALARS) if r.random() > self.wild * 0.3 else 'nosuchscalar'
+
+    def users_of_type(self, t):
+        u = []
+        for n, d in self.types.items():
+            if n != t and (t in d['bases'] or t in d['links'].values()):
+                u.append(n)
+        u += [f for f, pt in self.funcs.items() if pt == t]
+        u += [a for a, at in self.aliases.items() if at == t]
+        u += [g for g, k in self.globals_.items() if k == t]
+        return u
+
+    def descendants(self, t):
+        out, todo = set(), [t]
+        while todo:
+            x = todo.pop()
+            for n, d in self.types.items():
+                if x in d['bases'] and n not in out:
+                    out.add(n)
+                    todo.append(n)
+        return out
+
+    def all_props(self, t, seen=None):
+        seen = seen or set()
+        if t not in self.types or t in seen:
+            return {}
+        seen.add(t)
+        out = {}
+        for b in self.types[t]['bases']:
+            out.update(self.all_props(b, seen))
+        out.update(self.types[t]['props'])
+        return out
+
+    # -- commands
+    def body_create(self, t, own):
+        r = self.r
+        parts = []
+        for _ in range(r.choice([0, 1, 1, 2])):
+            p = f'p{r.randrange(4)}'
+            if p in own['props'] or p in self.all_props(t):
+                continue
+            sc = self.scalar()
+            req = 'REQUIRED ' if r.random() < 0.2 else ''
+            extra = ' { CREATE CONSTRAINT exclusive; }' if r.random() < 0.15 else ''
+            parts.append(f'CREATE {req}PROPERTY {p} -> {sc}{extra};')
+            if sc != 'nosuchscalar':
+                own['props'][p] = sc
+        for _ in range(r.choice([0, 0, 1, 1])):
+            l = f'l{r.randrange(3)}'
+            if l in own['links']:
+                continue
+            tgt = self.tname(True) if self.types else t
+            if r.random() < 0.15:
+                tgt = t
+            multi = 'MULTI ' if r.random() < 0.3 else ''
+            lp = ' { CREATE PROPERTY lp0 -> str; }' if r.random() < 0.15 else ''
+            parts.append(f'CREATE {multi}LINK {l} -> {tgt}{lp};')
+            if tgt in self.types or tgt == t:
+                own['links'][l] = tgt
+        if own['props'] and r.random() < 0.25:
+            p = r.choice(sorted(own['props']))
+            parts.append(f'CREATE INDEX ON (.{p});')
+            own['idx'].add(p)
+        if own['props'] and r.random() < 0.15:
+            p = r.choice(sorted(own['props']))
+            parts.append(f'CREATE PROPERTY c0 := (<str>.{p} ++ "x");')
+            own['comp'].add('c0')
+        if self.annos and r.random() < 0.2:
+            a = r.choice(sorted(self.annos))
+            parts.append(f"CREATE ANNOTATION {a} := 'v';")
+            own['ann'].add(a)
+        return parts
+
+    def c_create_type(self):
+        r = self.r
+        t = self.tname(False)
+        bases = []
+        if self.types and r.random() < 0.4:
+            bases = r.sample(sorted(self.types), min(len(self.types), r.choice([1, 1, 2])))
+            bases = [b for b in bases if b != t]
+        own = dict(props={}, links={}, bases=bases, idx=set(), ann=set(), comp=set())
+        ok = t not in self.types
+        if ok:
+            self.types[t] = own          # visible to its own body (self links)
+        parts = self.body_create(t, own)
+        if not ok and t in self.types and self.types[t] is own:
+            del self.types[t]
+        ext = f' EXTENDING {", ".join(bases)}' if bases else ''
+        ab = 'ABSTRACT ' if r.random() < 0.1 else ''
+        body = (' { ' + ' '.join(parts) + ' }') if parts else ''
+        return f'CREATE {ab}TYPE {t}{ext}{body};'
+
+    def c_alter_type(self):
+        r = self.r
+        t = self.tname(True)
+        d = self.types.get(t, dict(props={}, links={}, bases=[], idx=set(), ann=set(), comp=set()))
+        subs = []
+        for _ in range(r.choice([1, 1, 2, 3])):
+            x = r.random()
+            if x < 0.3:
+                subs += self.body_create(t, d)[:1]
+            elif x < 0.42 and d['props']:
+                p = r.choice(sorted(d['props']))
+                subs.append(f'DROP PROPERTY {p};')
+                if p not in d['idx'] and not d['comp']:
+                    d['props'].pop(p, None)
+            elif x < 0.5 and d['links']:
+                l = r.choice(sorted(d['links']))
+                subs.append(f'DROP LINK {l};')
+                d['links'].pop(l, None)
+            elif x < 0.62 and d['props']:
+                p = r.choice(sorted(d['props']))
+                q = f'p{r.randrange(4)}'
+                subs.append(f'ALTER PROPERTY {p} {{ RENAME TO {q}; }};')
+                if q not in self.all_props(t):
+                    d['props'][q] = d['props'].pop(p)
+                    if p in d['idx']:
+                        d['idx'].discard(p)
+                        d['idx'].add(q)
+            elif x < 0.7 and d['links']:
+                l = r.choice(sorted(d['links']))
+                tgt = self.tname(True)
+                subs.append(f'ALTER LINK {l} {{ SET TYPE {tgt}; }};')
+                if tgt in self.types:
+                    d['links'][l] = tgt
+            elif x < 0.76 and d['idx']:
+                p = r.choice(sorted(d['idx']))
+                subs.append(f'DROP INDEX ON (.{p});')
+                d['idx'].discard(p)
+            elif x < 0.82 and self.types:
+                b = self.tname(True)
+                cyc = b == t or b in self.descendants(t)
+                if cyc and r.random() < 0.97:
+                    continue            # inheritance cycles end in RecursionError (slow): keep them rare
+                if b in d['bases']:
+                    subs.append(f'DROP EXTENDING {b};')
+                    d['bases'].remove(b)
+                else:
+                    subs.append(f'EXTENDING {b} LAST;')
+                    if b in self.types and not cyc:
+                        d['bases'].append(b)
+            elif x < 0.88 and d['ann']:
+                a = r.choice(sorted(d['ann']))
+                subs.append(f'DROP ANNOTATION {a};')
+                d['ann'].discard(a)
+            elif x < 0.93:
+                subs.append("CREATE ACCESS POLICY ap0 ALLOW ALL USING (true);" if r.random() < 0.5
+                            else "CREATE CONSTRAINT expression ON (true);")
+            else:
+                subs.append('CREATE LINK bad -> NoSuchType;')       # fails part-way
+        if not subs:
+            subs = self.body_create(t, d)[:1] or ['CREATE PROPERTY p9 -> str;']
+        return f'ALTER TYPE {t} {{ ' + ' '.join(subs) + ' };'
+
+    def c_rename_type(self):
+        t = self.tname(True)
+        n = self.tname(False)
+        if t in self.types and n not in self.types:
+            d = self.types.pop(t)
+            self.types[n] = d
+            for x in self.types.values():
+                x['bases'] = [n if b == t else b for b in x['bases']]
+                x['links'] = {k: (n if v == t else v) for k, v in x['links'].items()}
+            self.funcs = {k: (n if v == t else v) for k, v in self.funcs.items()}
+            self.aliases = {k: (n if v == t else v) for k, v in self.aliases.items()}
+            self.globals_ = {k: (n if v == t else v) for k, v in self.globals_.items()}
+        return f'ALTER TYPE {t} RENAME TO {n};'
+
+    def c_drop_type(self):
+        r = self.r
+        cand = [t for t in self.types if not self.users_of_type(t)]
+        if cand and r.random() > self.wild * 2:
+            t = r.choice(sorted(cand))
+        else:
+            t = self.tname(True)
+        if t in self.types and not self.users_of_type(t):
+            del self.types[t]
+        return f'DROP TYPE {t};'
+
+    def c_scalar(self):
+        r = self.r
+        x = r.random()
+        if x < 0.55 or not self.scalars:
+            n = f'S{r.randrange(3)}'
+            base = r.choice(['str', 'int64'])
+            body = ' { CREATE CONSTRAINT max_len_value(5); }' if base == 'str' and r.random() < 0.4 else ''
+            if n not in self.scalars:
+                self.scalars[n] = base
+            return f'CREATE SCALAR TYPE {n} EXTENDING {base}{body};'
+        n = r.choice(sorted(self.scalars))
+        if x < 0.8:
+            used = any(n in d['props'].values() for d in self.types.values())
+            if not used:
+                del self.scalars[n]
+            return f'DROP SCALAR TYPE {n};'
+        m = f'S{r.randrange(3)}'
+        if m not in self.scalars:
+            self.scalars[m] = self.scalars.pop(n)
+            for d in self.types.values():
+                d['props'] = {k: (m if v == n else v) for k, v in d['props'].items()}
+        return f'ALTER SCALAR TYPE {n} RENAME TO {m};'
+
+    def c_anno(self):
+        r = self.r
+        a = f'a{r.randrange(2)}'
+        if a in self.annos and r.random() < 0.6:
+            if not any(a in d['ann'] for d in self.types.values()):
+                self.annos.discard(a)
+            return f'DROP ABSTRACT ANNOTATION {a};'
+        self.annos.add(a)
+        return f'CREATE ABSTRACT ANNOTATION {a};'
+
+    def c_func(self):
+        r = self.r
+        f = f'f{r.randrange(2)}'
+        if f in self.funcs and r.random() < 0.5:
+            pt = self.funcs.pop(f)
+            return f'DROP FUNCTION {f}(x: {pt});'
+        if self.types and r.random() < 0.6:
+            pt = self.tname(True)
+            props = self.all_props(pt)
+            body = f'(<str>x.{r.choice(sorted(props))})' if props and r.random() < 0.7 else "('k')"
+            ret = 'str'
+        else:
+            pt, body, ret = 'int64', '(x + 1)', 'int64'
+        if f not in self.funcs and (pt in self.types or pt == 'int64'):
+            self.funcs[f] = pt
+        return f'CREATE FUNCTION {f}(x: {pt}) -> {ret} USING {body};'
+
+    def c_alias(self):
+        r = self.r
+        a = f'A{r.randrange(2)}'
+        if a in self.aliases and r.random() < 0.5:
+            del self.aliases[a]
+            return f'DROP ALIAS {a};'
+        t = self.tname(True)
+        props = self.all_props(t)
+        shape = f' {{ {r.choice(sorted(props))} }}' if props and r.random() < 0.6 else ''
+        if a not in self.aliases and t in self.types:
+            self.aliases[a] = t
+        return f'CREATE ALIAS {a} := {t}{shape};'
+
+    def c_global(self):
+        r = self.r
+        g = f'g{r.randrange(2)}'
+        if g in self.globals_ and r.random() < 0.5:
+            del self.globals_[g]
+            return f'DROP GLOBAL {g};'
+        if self.types and r.random() < 0.4:
+            t = self.tname(True)
+            if g not in self.globals_ and t in self.types:
+                self.globals_[g] = t
+            return f'CREATE GLOBAL {g} := (select {t} limit 1);'
+        if g not in self.globals_:
+            self.globals_[g] = 'str'
+        return f'CREATE GLOBAL {g} -> str;'
+
+    def c_module(self):
+        r = self.r
+        if 'm1' in self.modules:
+            x = r.random()
+            if x < 0.4:
+                return 'CREATE TYPE m1::X { CREATE PROPERTY p0 -> str; };'
+            if x < 0.6:
+                return 'DROP TYPE m1::X;'
+            self.modules.discard('m1')
+            return 'DROP MODULE m1;'
+        self.modules.add('m1')
+        return 'CREATE MODULE m1;'
+
+    def cmd(self):
+        x = self.r.random()
+        if not self.types or x < 0.22:
+            return self.c_create_type()
+        if x < 0.50:
+            return self.c_alter_type()
+        if x < 0.57:
+            return self.c_rename_type()
+        if x < 0.70:
+            return self.c_drop_type()
+        if x < 0.77:
+            return self.c_scalar()
+        if x < 0.82:
+            return self.c_anno()
+        if x < 0.89:
+            return self.c_func()
+        if x < 0.93:
+            return self.c_alias()
+        if x < 0.97:
+            return self.c_global()
+        return self.c_module()
+
+
+def ddl_history(rnd, maxlen):
+    g = DDLGen(rnd)
+    return ['CREATE MODULE default;'] + [g.cmd() for _ in range(rnd.randint(3, maxlen))]
+
+
+DDL_CORPUS = [
+    # drop refused while referred to, rename propagation, failing part-way, cascade of owned children
+    ['CREATE MODULE default;', 'CREATE TYPE A { CREATE PROPERTY p -> str; };',
+     'CREATE TYPE B EXTENDING A { CREATE LINK l -> A; CREATE INDEX ON (.p); };',
+     'ALTER TYPE A { ALTER PROPERTY p { RENAME TO q; }; };', 'DROP TYPE A;', 'ALTER TYPE B { DROP LINK l; };',
+     'CREATE FUNCTION f(x: A) -> str USING (x.q);', 'ALTER TYPE A RENAME TO C;',
+     'ALTER TYPE B { CREATE PROPERTY ok -> str; CREATE LINK bad -> Missing; };',
+     'DROP FUNCTION f(x: C);', 'DROP TYPE B;', 'DROP TYPE C;', 'DROP TYPE C;'],
+]
+
+
+def gen_ddl(tier):
+    rnd = lib.rng('C04ddl')
+    hs = [list(h) for h in DDL_CORPUS]
+    n = 480 if tier == 'quick' else 8000
+    hs += [ddl_history(rnd, 15) for _ in range(n)]
+    return hs
+
+
+def run_ddl_impl(histories, nproc=16):
+    """like lib.parallel_lines, but with small chunks (a DDL history costs ~1 s)"""
+    from concurrent.futures import ThreadPoolExecutor
+    import subprocess
+    lines = [json.dumps(h) for h in histories]
+    if not lines:
+        return []
+    nproc = max(1, min(nproc, (len(lines) + 7) // 8))
+    size = (len(lines) + nproc - 1) // nproc
+    chunks = [lines[i:i + size] for i in range(0, len(lines), size)]
+
+    def one(chunk):
+        p = subprocess.run([lib.PY, IMPL, lib.REPO, 'ddl'], input='\n'.join(chunk) + '\n',
+                           env=lib.impl_env(), stdout=subprocess.PIPE, stderr=subprocess.PIPE,
+                           text=True, timeout=7200)
+        out = p.stdout.split('\n')
+        if out and out[-1] == '':
+            out.pop()
+        if p.returncode != 0 or len(out) != len(chunk):
+            raise RuntimeError(f'c04_impl ddl: rc={p.returncode} {len(out)}/{len(chunk)}\n{p.stderr[-3000:]}')
+        return out
+
+    with ThreadPoolExecutor(len(chunks)) as ex:
+        res = list(ex.map(one, chunks))
+    return [x for r in res for x in r]
+
+
+def ddl_nontrivial(h, res):
+    st = res.split(' !')[0].split('#')[0].split('|')
+    acc = [c for c, s_ in zip(h, st) if s_ == 'ok']
+    return (len(acc) >= 4 and len(acc) < len(st)
+            and any(c.startswith('DROP') or 'RENAME' in c or 'DROP ' in c for c in acc))
+
+
+def shrink_ddl(h, tag):
+    for _ in range(40):
+        cands = [h[:i] + h[i + 1:] for i in range(1, len(h))]
+        if not cands:
+            break
+        res = run_ddl_impl(cands)
+        nxt = next((c for c, r in zip(cands, res) if tag in mon_tags(r)), None)
+        if nxt is None:
+            break
+        h = nxt
+    return h
+
 # ---------------------------------------------------------------- running
 def run_impl(lines):
     return lib.parallel_lines([lib.PY, IMPL, lib.REPO, 'run'], lines, env=lib.impl_env())
